@@ -31,6 +31,7 @@ type Config struct {
 	TimeoutMs     int
 	SchedChoice   bool
 	CloseYield    bool // closing a channel is a scheduling point (with SchedChoice)
+	TickerTicks   int  // every time.Ticker delivers up to this many ticks, each as soon as somebody receives (0: tickers never fire)
 	MapOrderChoice bool
 	RaceMode      bool // record an event skeleton and run the order-variable race analysis on completed paths
 	ConcreteMem   bool // pkg/mem sizes are a fixed 8 GiB instead of nondeterministic values
@@ -397,6 +398,7 @@ func runOne(mainpkg *ssa.Package, sizes types.Sizes, fnName string, cfg *Config,
 	}
 	i.sc.schedChoice = cfg.SchedChoice
 	i.sc.closeYield = cfg.CloseYield
+	i.sc.tickerTicks = cfg.TickerTicks
 	if cfg.RaceMode {
 		i.evlog = newEventLog()
 	}
